@@ -214,7 +214,77 @@ func run(c *core.Ctx) int {
 	}
 	c.Extra("phase_race_s", time.Since(c.Start).Seconds())
 
+	// large host modules (> 256 functions), all imported by one guest; several host modules per guest
+	bigCases := genBigCases(c, rng.Split())
+	var bigJSON []json.RawMessage
+	for _, bc := range bigCases {
+		bigJSON = append(bigJSON, core.J(bc))
+	}
+	bigRes := core.RunCases(c, "bighost", bigJSON, core.ChildOpts{Batch: 1, TimeoutS: 900, RlimitAS: 8 << 30})
+	c.Extra("phase_bighost_s", time.Since(c.Start).Seconds())
+
 	var calls int64
+	for _, r := range bigRes {
+		bc := bigCases[r.Index]
+		if r.Crash != nil {
+			if r.Crash.Kind == "timeout" {
+				c.Inconclusive("watchdog")
+				continue
+			}
+			c.Violate("large-host-module:crash:"+r.Crash.Kind+":"+firstWords(r.Crash.Detail), r.Crash.Detail,
+				map[string]any{"big_case": bc, "crash": r.Crash})
+			continue
+		}
+		var br bigResult
+		if r.Out == nil || json.Unmarshal(r.Out, &br) != nil || br.Inconclusive != "" {
+			c.Inconclusive("bad-child-output")
+			continue
+		}
+		if br.BuildErr != "" {
+			c.Violate("large-host-module:build-error:"+firstWords(errClassStr(br.BuildErr)), br.BuildErr, map[string]any{"big_case": bc})
+			continue
+		}
+		for _, f := range br.Findings {
+			c.Violate(f.Sig, f.Detail, f.Witness)
+			c.Count("findings_reported_by_children", 1)
+		}
+		if br.Engines != 2 {
+			c.Inconclusive("engine-run-incomplete")
+			continue
+		}
+		calls += br.Calls
+		c.Count("bighost_cases_"+bc.Class, 1)
+		c.Count("bighost_calls", br.Calls)
+		c.Count("bighost_calls_to_index_ge_256", br.CallsGE256)
+		c.Count("bighost_host_functions_defined", br.HostFuncs)
+		c.Count("bighost_guest_imports", br.Imports)
+		c.Count("bighost_values_compared", br.Values)
+		for k, v := range br.ByStyle {
+			c.Count("bighost_calls_style_"+k, v)
+		}
+		for k, v := range br.ByForm {
+			c.Count("bighost_calls_form_"+k, v)
+		}
+		for _, s := range bc.Sizes {
+			c.Distinct("bighost_module_sizes", fmt.Sprint(s))
+		}
+		for _, pr := range br.Probed {
+			if i := strings.LastIndex(pr, ".f"); i >= 0 {
+				c.Distinct("bighost_boundary_indexes_probed", pr[i+2:])
+			}
+		}
+		if c.Counter("bighost_cases_"+bc.Class) == 1 {
+			c.Sample(map[string]any{"flavour": "bighost", "case": bc, "calls": br.Calls, "calls_to_index_ge_256": br.CallsGE256,
+				"host_functions": br.HostFuncs, "guest_imports": br.Imports, "boundary_probes": br.Probed})
+		}
+	}
+	for _, k := range []string{"bighost_calls_to_index_ge_256", "bighost_cases_single-large-module", "bighost_cases_several-modules",
+		"bighost_calls_form_call", "bighost_calls_form_callwithstack", "bighost_calls_style_gf", "bighost_calls_style_gm",
+		"bighost_calls_style_r0s", "bighost_calls_style_r2u"} {
+		if c.Counter(k) == 0 {
+			c.Inconclusive("never-reached:" + k)
+		}
+	}
 	matrix := map[string]*[maxArity]int64{}
 	cell := func(side string, t T, pos int) {
 		k := side + " " + wenc.TypeName(t)
@@ -360,7 +430,7 @@ func run(c *core.Ctx) int {
 	c.Assume("externref values are opaque integers chosen by the harness; funcref values are the opaque values the engine hands out for ref.func of four guest functions (identity checked by calling through them inside wasm)")
 	c.Assume("v128 only where wazero accepts it: guest-defined functions and stack-based host functions (two slots, low half first)")
 	return c.Finish(calls, int64(c.DistinctN("signatures")),
-		"evaluations = calls from Go that were decided (each checks every parameter inside the host function, every result at Go and, for judging wrappers, an in-wasm mask); distinct = distinct non-empty signatures fully run on both engines with all definition styles")
+		"evaluations = calls from Go that were decided (each checks every parameter inside the host function, every result at Go and, for judging wrappers, an in-wasm mask; large-host-module calls additionally check which host function ran); distinct = distinct non-empty signatures fully run on both engines with all definition styles")
 }
 
 func firstWords(s string) string {
